@@ -51,6 +51,13 @@ type engine struct {
 	tf     base.LogTransform
 	cnt    *int64
 	tm     time.Time
+	// the record transformed before the current one and what its field was right afterwards: a transform instance meets many
+	// records before the first of them is serialized (whole input batches under inputs[].extractions), so what it wrote
+	// for one record must not change when it handles the next (seeded c14-s9: one scratch buffer shared by all records)
+	prevRec *base.LogRecord
+	prevOut string
+	prevIn  string
+	clobber string
 }
 
 func newEngine() *engine {
@@ -83,6 +90,10 @@ func (e *engine) run(s string) (out string, counted int64, other bool, pan any) 
 		e.tf.Transform(rec)
 	}()
 	other = rec.Fields[0] != hostVal || rec.Fields[2] != appVal
+	if e.prevRec != nil && pan == nil && e.prevRec.Fields[1] != e.prevOut {
+		e.clobber = fmt.Sprintf("the transform had turned %q into %q; after it handled the next record (%q) that earlier record's field reads %q", e.prevIn, e.prevOut, s, e.prevRec.Fields[1])
+	}
+	e.prevRec, e.prevOut, e.prevIn = rec, string(append([]byte(nil), rec.Fields[1]...)), s
 	return rec.Fields[1], *e.cnt - before, other, pan
 }
 
@@ -95,6 +106,10 @@ func (e *engine) observe(in string) (string, judgement) {
 	jd := judge(in, out, counted)
 	if other {
 		jd.findings = append(jd.findings, finding{"other-field-changed", fmt.Sprintf("redacting 'log'=%q changed another field", in)})
+	}
+	if e.clobber != "" {
+		jd.findings = append(jd.findings, finding{"earlier-record-changed", e.clobber})
+		e.clobber = ""
 	}
 	return out, jd
 }
@@ -257,7 +272,7 @@ func (w *worker) file(engineName, in, out string, f finding, doShrink bool) {
 		return // already have a witness at least as short; do not shrink again
 	}
 	what := f.what
-	if doShrink {
+	if doShrink && f.fp != "earlier-record-changed" {
 		if m := w.e.shrink(in, f.fp); m != in {
 			in = m
 			o, jd := w.e.observe(in)
